@@ -9,7 +9,9 @@ import (
 )
 
 type poolInfo struct {
-	global   *ssa.Global
+	global   *ssa.Global // nil for a pool held in a struct field
+	field    *types.Var  // the struct field holding the pool (nil for a package-level pool)
+	owner    string      // "<Type>.<field>" for a field pool
 	elem     types.Type // common static type of New results and Put arguments (nil = inconsistent)
 	newFn    *ssa.Function
 	putSites []ssa.CallInstruction
@@ -18,12 +20,50 @@ type poolInfo struct {
 }
 
 func (w *World) poolOf(v ssa.Value) *poolInfo {
-	g, ok := v.(*ssa.Global)
+	w.buildPools()
+	if k := poolKey(v); k != nil {
+		return w.pools[k]
+	}
+	return nil
+}
+
+// name of the pool in contracts and lists: the global's name, or "<Type>.<field>"
+func (pi *poolInfo) name() string {
+	if pi.global != nil {
+		return pi.global.Name()
+	}
+	return pi.owner
+}
+
+// poolKey: what identifies the pool an address denotes - the package-level variable, or the
+// struct field (all objects of the struct type share one typing: every New and every Put through
+// that field, anywhere in the package, has to agree).
+func poolKey(v ssa.Value) interface{} {
+	switch x := v.(type) {
+	case *ssa.Global:
+		return x
+	case *ssa.FieldAddr:
+		if fv := poolFieldVar(x); fv != nil {
+			return fv
+		}
+	}
+	return nil
+}
+
+func poolFieldVar(fa *ssa.FieldAddr) *types.Var {
+	pt, ok := fa.X.Type().Underlying().(*types.Pointer)
 	if !ok {
 		return nil
 	}
-	w.buildPools()
-	return w.pools[g]
+	st, ok := pt.Elem().Underlying().(*types.Struct)
+	if !ok {
+		return nil
+	}
+	f := st.Field(fa.Field)
+	if !isSyncPool(f.Type()) {
+		return nil
+	}
+	return f
 }
 
 func isSyncPool(t types.Type) bool {
@@ -35,10 +75,52 @@ func (w *World) buildPools() {
 	if w.pools != nil {
 		return
 	}
-	w.pools = map[*ssa.Global]*poolInfo{}
+	w.pools = map[interface{}]*poolInfo{}
 	for _, g := range w.globalList {
 		if isSyncPool(g.Type().(*types.Pointer).Elem()) {
 			w.pools[g] = &poolInfo{global: g}
+		}
+	}
+	// pools held in struct fields: one entry per field; an address of the field that is used for
+	// anything but Get, Put and the assignment of New (copied, passed on, stored) makes the typing
+	// unknown
+	for _, f := range w.AllFuncs {
+		for _, b := range f.Blocks {
+			for _, in := range b.Instrs {
+				fa, ok := in.(*ssa.FieldAddr)
+				if !ok {
+					continue
+				}
+				fv := poolFieldVar(fa)
+				if fv == nil {
+					continue
+				}
+				pi := w.pools[fv]
+				if pi == nil {
+					owner := ""
+					if pt, ok := fa.X.Type().Underlying().(*types.Pointer); ok {
+						owner = namedTypeName(pt.Elem())
+					}
+					pi = &poolInfo{field: fv, owner: owner + "." + fv.Name()}
+					w.pools[fv] = pi
+				}
+				if fa.Referrers() != nil {
+					for _, r := range *fa.Referrers() {
+						switch u := r.(type) {
+						case *ssa.FieldAddr:
+							continue
+						case ssa.CallInstruction:
+							c := u.Common()
+							if callee := c.StaticCallee(); callee != nil && callee.Pkg != nil && callee.Pkg.Pkg.Path() == "sync" && len(c.Args) > 0 && c.Args[0] == ssa.Value(fa) {
+								continue
+							}
+						case *ssa.DebugRef:
+							continue
+						}
+						pi.conflict = append(pi.conflict, "the pool field is used other than through Get/Put/New in "+displayName(f))
+					}
+				}
+			}
 		}
 	}
 	note := func(pi *poolInfo, t types.Type, where string) {
@@ -60,8 +142,8 @@ func (w *World) buildPools() {
 					if !ok {
 						continue
 					}
-					g, ok := fa.X.(*ssa.Global)
-					if !ok || w.pools[g] == nil {
+					g := poolKey(fa.X)
+					if g == nil || w.pools[g] == nil {
 						continue
 					}
 					var nf *ssa.Function
@@ -94,8 +176,8 @@ func (w *World) buildPools() {
 					if callee == nil || callee.Pkg == nil || callee.Pkg.Pkg.Path() != "sync" || len(c.Args) == 0 {
 						continue
 					}
-					g, ok := c.Args[0].(*ssa.Global)
-					if !ok || w.pools[g] == nil {
+					g := poolKey(c.Args[0])
+					if g == nil || w.pools[g] == nil {
 						continue
 					}
 					pi := w.pools[g]
